@@ -27,6 +27,24 @@ CHECKS = {
         essential_labels=['mapping:log', 'mapping:linear', 'mapping:cubic', 'pos:dense', 'pos:sparse', 'pos:paginated', 'has-neg', 'has-zero', 'has-submin', 'has-edge-value', 'extreme-magnitude', 'q-on-integer-rank', 'interior-q-across-bins', 'custom-offset'],
         assumptions=COMMON_ASSUMPTIONS + ["floating-point slack 64*2^-52*(1+|ln v|+(|i|+|offset|)*ln gamma) is allowed on top of alpha (DESIGN §1.1)", "dense/paginated sketches draw values from an index window of at most 2^14 bins (memory)"],
     ),
+    'C03': dict(
+        level='exploration',
+        units=[U('^TestC03$', (4, 8000), (16, 400000))],
+        essential_labels=['kind:log', 'kind:linear', 'kind:cubic', 'built:alpha', 'built:gamma', 'offset:2^30', 'offset:int32-bound', 'offset:small', 'offset:default', 'probe:bin-edge', 'probe:binade-edge', 'probe:range-end'],
+        assumptions=COMMON_ASSUMPTIONS + ["floating-point slack 64*2^-52*(1+|ln v|+(|i|+|offset|)*ln gamma) on accuracy and bin containment (DESIGN §1.1)", "the bin after the last indexable one is not asserted (its lower bound overflows for interpolated mappings)"],
+    ),
+    'C19': dict(
+        level='exploration',
+        units=[U('^TestC19$', (4, 6000), (16, 150000))],
+        essential_labels=['kind:log', 'kind:linear', 'kind:cubic', 'non-default-offset', 'pair:cross-kind', 'pair:near-alpha', 'pair:offset'],
+        assumptions=COMMON_ASSUMPTIONS + ["refdec reads kind/gamma/offset from the binary block independently of the repository's decoder"],
+    ),
+    'C20': dict(
+        level='exploration',
+        units=[U('^TestC20$', (4, 3000, 40), (16, 60000, 80))],
+        essential_labels=['add-after-query', 'merge', 'duplicate-heavy', 'q-on-integer-rank'],
+        assumptions=COMMON_ASSUMPTIONS + ["rho=q*(n-1) is accepted evaluated exactly or in binary64 (they differ only within half an ulp of an integer)", "NaN q and Min/Max of an empty dataset are outside the statement and not exercised"],
+    ),
     'C04': dict(
         level='exploration',
         units=[
